@@ -171,12 +171,18 @@ class HwCheck:
         return [vs[k] for k in sorted(vs)]
     def _at(self, allvars):
         rigid = self.rigid
+        names = {str(x) for x in allvars if str(x) not in rigid}
         cache = {}
         def at(e, k):
-            sub = cache.get(k)
-            if sub is None:
-                sub = cache[k] = [(x, z3.Const(f"{x}@{k}", x.sort())) for x in allvars if str(x) not in rigid]
-            return z3.substitute(e, *sub)
+            # substitute only the variables that occur in e (the per-call cost of z3.substitute grows with the number of pairs)
+            m = cache.setdefault(k, {}); pairs = []
+            for x in get_vars(e):
+                n = str(x)
+                if n not in names: continue
+                c = m.get(n)
+                if c is None: c = m[n] = z3.Const(f"{n}@{k}", x.sort())
+                pairs.append((x, c))
+            return z3.substitute(e, *pairs) if pairs else e
         return at
     # ---- generated invariant candidates
     def auto_hints(self, max_width=8):
